@@ -952,4 +952,62 @@ theorem vacuum_twice_rows_length (σ : State) (α : Spec.State) (h : Rel σ α) 
       rw [ih (fun r hr => hx r (List.mem_cons_of_mem _ hr))]
   exact key _ hall
 
+/-! ### VACUUM never stores more -/
+
+theorem trimChain_sublist (h : Nat) (l : List Version) : (trimChain h l).Sublist l := by
+  cases l with
+  | nil => exact List.Sublist.refl _
+  | cons v tl => exact List.Sublist.cons₂ _ (List.takeWhile_sublist _)
+
+theorem liveVersions_sublist (V : VDefects) (s : Snapshot) (r : Row) : (liveVersions V s r).Sublist r.versions := by
+  unfold liveVersions
+  split
+  · cases r.versions with
+    | nil => exact List.Sublist.refl _
+    | cons v tl =>
+      dsimp only
+      split
+      · exact List.nil_sublist _
+      · exact List.Sublist.refl _
+  · exact List.filter_sublist
+
+theorem Row.vacuum_size_le {V : VDefects} {s : Snapshot} {h : Nat} {r r' : Row} (hv : r.vacuum V s h = some r') :
+    r'.size ≤ r.size := by
+  obtain ⟨_, _, _, _, hvers, hdels, _, _⟩ := Row.vacuum_some hv
+  unfold Row.size
+  rw [hvers, hdels]
+  have h1 := ((trimChain_sublist h _).trans (liveVersions_sublist V s r)).length_le
+  have h2 := (List.filter_sublist (l := r.deleters) (p := fun d => !s.aborted.contains d)).length_le
+  omega
+
+theorem sizeRows_vacuumRows_le (V : VDefects) (s : Snapshot) (h : Nat) : ∀ (rows : List Row),
+    sizeRows (vacuumRows V s h rows) ≤ sizeRows rows
+  | [] => Nat.le_refl _
+  | r :: rs => by
+    have ih := sizeRows_vacuumRows_le V s h rs
+    unfold vacuumRows at ih ⊢
+    simp only [List.filterMap_cons]
+    cases hv : r.vacuum V s h with
+    | none => simp only [sizeRows]; omega
+    | some r' =>
+      have := Row.vacuum_size_le hv
+      simp only [sizeRows]; omega
+
+/-! ### forgetting -/
+
+theorem getElem?_forgetAux (h : Nat) : ∀ (txns : List Txn) (k i : Nat),
+    (forgetAux h txns k)[i]? =
+      (txns[i]?).map (fun t => if k + i < h ∧ t.status = Status.aborted then { t with status := Status.committed } else t)
+  | [], _, _ => by simp [forgetAux]
+  | t :: ts, k, 0 => by simp [forgetAux]
+  | t :: ts, k, i + 1 => by
+    simp only [forgetAux, List.getElem?_cons_succ]
+    rw [getElem?_forgetAux h ts (k + 1) i]
+    have : k + 1 + i = k + (i + 1) := by omega
+    rw [this]
+
+theorem length_forgetAux (h : Nat) : ∀ (txns : List Txn) (k : Nat), (forgetAux h txns k).length = txns.length
+  | [], _ => rfl
+  | t :: ts, k => by simp [forgetAux, length_forgetAux h ts]
+
 end AxVerif.Db
